@@ -4,7 +4,9 @@ itself model-checked to be exactly "some partition into n consecutive intervals 
 answers"; a sharded map behind ANY in-range, stable router model-checked equal to a plain map.
 Routing observations of the real remap package (all key types, boundary-biased hashes, many shard
 counts) and call histories of cache.WideMap / WideXHashMap / wide LRU facades are validated by
-Shard_Trace."""
+Shard_Trace.  Hardening: constructor arguments as dimensions (default prime, 1, 2, huge; LRU capacity 0 ..
+MaxInt64), capacity-pressure histories per shard judged by LRU_Trace, cold-start routing rounds, input
+buffers reused and checked unchanged, panics / hangs as events."""
 
 
 def run(ctx):
@@ -32,9 +34,9 @@ def run(ctx):
     rt, mp, rc, pr = (ctx.path("route.ndjson"), ctx.path("maps.ndjson"), ctx.path("races.ndjson"),
                       ctx.path("pressure.ndjson"))
     out = ctx.harness(binary, ["-plans", pdir, "-out", rt, "-maps", mp, "-races", rc, "-seed", ctx.seed,
-                               "-pressure", pr, "-npress", ctx.q(240, 6000),
+                               "-pressure", pr, "-npress", ctx.q(200, 6000),
                                "-nrace", ctx.q(4000, 80000), "-nracekeep", ctx.q(900, 20000),
-                               "-nroutecold", ctx.q(150, 3000), "-nrand", ctx.q(16, 120), "-nextra", ctx.q(2, 24),
+                               "-nroutecold", ctx.q(100, 3000), "-nrand", ctx.q(16, 120), "-nextra", ctx.q(2, 24),
                                "-hist", ctx.q(150, 4000), "-maxops", ctx.q(60, 200)],
                       traces=[rt, mp, rc, pr])
     # 4. validate what the real code did
@@ -96,7 +98,10 @@ def run(ctx):
         "(remap.ToBytes does not support them); shard count 0 is outside the property",
         "race rounds: inv/res sequence numbers are drawn outside the containers (before the call, after its "
         "return), so the logged order is consistent with real time; TLC searches for a linearization",
-        "wide LRU facades run with a capacity no history reaches (capacity per shard is C04's subject); "
+        "wide LRU facades: map-equivalence histories use at most capacity/shards+1 distinct keys (the per-shard "
+        "capacity their constructors document), so no shard can be full wherever keys are routed; under "
+        "pressure the calls are split by the public remap index and each shard is held to LRU.tla; negative "
+        "capacities are outside (the unsharded LRU panics on them too); "
         "sharded key lockers / semaphore maps: the C02 / C01 schedules are replayed on the sharded variants "
         "only and judged by KeyLockObs / Semap_Trace (the unsharded structures' contracts)",
     ]
@@ -109,7 +114,9 @@ def run(ctx):
              "content) under 10 concrete key schemes x variants, + seeded random histories over mixed-type keys; "
              "race rounds: fresh sharded container (1..3 shards, 6 variants), 2..4 goroutines released by a spin "
              "barrier, 1..3 calls each on 2..4 distinct keys, kept only if calls overlapped, closed by a sequential "
-             "Get+Exist probe of every key",
+             "Get+Exist probe of every key; configurations: no option (73), 1, 2, 3 .. 100003 shards, LRU capacity "
+             "far / 0 / 1 / n-1 / n / MaxInt64-1 / MaxInt64; pressure: 4 wide LRUs x 1..3 shards x capacity 0..3n+2, "
+             "(capacity/n+3) keys per shard; cold-start routing: fresh ReMap x 2..4 goroutines x 5..10 questions",
         explanation="ShardAlg.tla (NewReMap table, sort.Search bisection, clamp, modulo) model-checked for all "
                     "n<=256 and all 8-bit hashes against the contract of Shard.tla; every index returned by the real "
                     "remap must satisfy the same contract (range, stability per key, order-compatibility of all "
